@@ -126,9 +126,18 @@ Definition eval_mapf (t : table) (f : mapf) (a : id) : option Z :=
 Inductive atmost :=
 | AInf                       (* float("inf") *)
 | AInt (k : Z)               (* an int: a count *)
-| AFrac (k j : Z).           (* the float k / 2^j  with 0 <= k <= 2^j *)
+| AFrac (k j : Z).           (* the float k / 2^j  (the statement's quantifier: 0 <= k <= 2^j) *)
 
 Inductive aggf := FSum | FMin | FMax | FLen.
+
+(* what is applied to each group by GroupBy.map *)
+Inductive gmeth :=
+| GMLen (by_name : bool)     (* "__len__"  /  len            : works on lists and on AgentSets *)
+| GMSumAttr (n : Z)          (* lambda g: sum(a.a<n> for a in g) : works on both *)
+| GMGet (n : Z).             (* "get", "a<n>"                : a list has no method get *)
+
+Inductive setop := SUnion | SInter | SDiff | SXor.
+Inductive setcmp := CEq | CLe | CDisjoint.
 
 (* ---------- select (agent.py:200-246) ---------- *)
 (* at_most after the conversion  int(len(self) * at_most) ; None = inf *)
@@ -136,7 +145,10 @@ Definition limit (am : atmost) (len : Z) : option Z :=
   match am with
   | AInf => None
   | AInt k => Some k
-  | AFrac k j => Some ((len * k) / 2 ^ j)
+  | AFrac k j =>
+      (* `at_most <= 1.0 and isinstance(at_most, float)`: only then converted; a float above 1.0 is used as it
+         is, and  count >= f  for an integer count is  count >= ceil(f) *)
+      if k <=? 2 ^ j then Some ((len * k) / 2 ^ j) else Some ((k + 2 ^ j - 1) / 2 ^ j)
   end.
 
 Definition reached (lim : option Z) (count : Z) : bool :=
@@ -211,6 +223,15 @@ Definition sort_members (t : table) (k : keyf) (asc : bool) (m : list id) : opti
   | Some _ => Some (isort (dir_le asc) (key_or0 t k) m)
   end.
 
+(* tuple keys (k1(a), k2(a)) compare lexicographically; a stable sort by the second component followed by a
+   stable sort by the first is the stable lexicographic sort (in both directions) *)
+Definition sort2_members (t : table) (k1 k2 : keyf) (asc : bool) (m : list id) : option (list id) :=
+  match all_some (fun a => match eval_key t k1 a, eval_key t k2 a with
+                           | Some x, Some y => Some (x, y) | _, _ => None end) m with
+  | None => None
+  | Some _ => Some (isort (dir_le asc) (key_or0 t k1) (isort (dir_le asc) (key_or0 t k2) m))
+  end.
+
 (* ---------- shuffle (agent.py:248-270): the outcome is an input ---------- *)
 Fixpoint zlist_eqb (a b : list Z) : bool :=
   match a, b with
@@ -266,8 +287,9 @@ Definition store (st : state) (i : Z) (m : list id) : state :=
 Inductive op :=
 | Select (s : Z) (p : option pred) (am : atmost) (ty : option Z) (inplace : bool) (d : Z)
 | Sort (s : Z) (k : keyf) (asc inplace : bool) (d : Z)
+| Sort2 (s : Z) (k1 k2 : keyf) (asc inplace : bool) (d : Z)    (* key = lambda a: (k1(a), k2(a)) : tuples, lexicographic *)
 | Shuffle (s : Z) (outcome : list id) (inplace : bool) (d : Z)
-| GroupBy (s : Z) (k : keyf)
+| GroupBy (s : Z) (k : keyf) (rt : bool)             (* result_type: true = "agentset", false = "list" *)
 | GroupGet (s : Z) (k : keyf) (kv : Z) (d : Z)      (* s.groupby(k).groups[kv] *)
 | Get (s : Z) (names : list Z) (single : bool) (mode dflt : Z)
 | SetAttr (s : Z) (n v : Z)
@@ -285,7 +307,13 @@ Inductive op :=
 (* GroupBy helper methods (agent.py:604-683) *)
 | GroupCount (s : Z) (k : keyf)                      (* s.groupby(k).count() *)
 | GroupAgg (s : Z) (k : keyf) (n : Z) (f : aggf)     (* s.groupby(k).agg("a<n>", f) *)
-| GroupDoSet (s : Z) (k : keyf) (n v : Z).           (* s.groupby(k).do("set", "a<n>", v) *)
+| GroupDoSet (s : Z) (k : keyf) (n v : Z)            (* s.groupby(k).do("set", "a<n>", v) *)
+| GroupMap (s : Z) (k : keyf) (rt : bool) (gm : gmeth)   (* s.groupby(k, result_type).map(...) *)
+| GroupDo (s : Z) (k : keyf) (rt : bool) (by_name : bool) (n v : Z)
+     (* .do("set", "a<n>", v)  /  .do(lambda g: [setattr(a, "a<n>", v) for a in g]) *)
+(* set algebra inherited from collections.abc.Set / MutableSet *)
+| SetOp (s1 s2 : Z) (o : setop) (inplace : bool) (d : Z)     (* s1 | s2 ...  /  s1 |= s2 ... *)
+| SetCmp (s1 s2 : Z) (c : setcmp).                           (* s1 == s2, s1 <= s2, s1.isdisjoint(s2) *)
 
 Inductive result :=
 | ROk (vals : list Z)
@@ -352,6 +380,61 @@ Fixpoint group_agg (t : table) (n : Z) (f : aggf) (g : list (Z * list id)) : lis
 Definition group_do_set (n v : Z) (g : list (Z * list id)) (t : table) : table :=
   fold_left (fun t' e => set_attr_all (snd e) n v t') g t.
 
+(* what GroupBy.map applies to one group; None = AttributeError *)
+Definition gm_apply (t : table) (rt : bool) (gm : gmeth) (mem : list id) : option (list Z) :=
+  match gm with
+  | GMLen _ => Some [zlen mem]
+  | GMSumAttr n => match all_some (fun a => attr_of t a n) mem with
+                   | Some vals => Some [zsum vals] | None => None end
+  | GMGet n => if rt then match all_some (fun a => attr_of t a n) mem with
+                          | Some vals => Some (zlen vals :: vals) | None => None end
+               else None
+  end.
+
+(* {k: f(v) for k, v in self.groups.items()} : the first failing group ends the comprehension *)
+Fixpoint group_map (t : table) (rt : bool) (gm : gmeth) (g : list (Z * list id)) : option (list Z) :=
+  match g with
+  | [] => Some []
+  | (k, mem) :: rest =>
+      match gm_apply t rt gm mem with
+      | None => None
+      | Some vs => match group_map t rt gm rest with Some r => Some (k :: vs ++ r) | None => None end
+      end
+  end.
+
+(* AgentSet(agents): {agent: None for agent in agents} de-duplicates, first position kept *)
+Definition new_set (l : list id) : list id := dedup_first Z.eqb l.
+
+(* ---------- set algebra (collections.abc.Set / MutableSet mixins) ---------- *)
+Definition isin (m : list id) (a : id) : bool := memb Z.eqb a m.
+Definition notin (m : list id) (a : id) : bool := negb (memb Z.eqb a m).
+(* for value in it: self.add(value) *)
+Definition add_all (m1 m2 : list id) : list id :=
+  fold_left (fun m v => if memb Z.eqb v m then m else m ++ [v]) m2 m1.
+(* for value in it: discard it if present, add it otherwise *)
+Definition toggle_all (m1 m2 : list id) : list id :=
+  fold_left (fun m v => if memb Z.eqb v m then remove_key Z.eqb v m else m ++ [v]) m2 m1.
+
+Definition set_binop (o : setop) (inplace : bool) (m1 m2 : list id) : list id :=
+  match o, inplace with
+  | SUnion, false => new_set (m1 ++ m2)               (* _from_iterable(chain(self, other)) *)
+  | SUnion, true => add_all m1 m2                     (* __ior__ *)
+  | SInter, false => filter (isin m1) m2              (* value for value in OTHER if value in self *)
+  | SInter, true => filter (isin m2) m1               (* discard every value of self - it *)
+  | SDiff, _ => filter (notin m2) m1                  (* value for value in self if value not in other / discards *)
+  | SXor, false => new_set (filter (notin m2) m1 ++ filter (notin m1) m2)   (* (self - other) | (other - self) *)
+  | SXor, true => toggle_all m1 m2                    (* __ixor__ *)
+  end.
+
+Definition set_le (m1 m2 : list id) : bool :=
+  if zlen m1 >? zlen m2 then false else forallb (isin m2) m1.
+Definition set_cmp (c : setcmp) (m1 m2 : list id) : bool :=
+  match c with
+  | CEq => (zlen m1 =? zlen m2) && set_le m1 m2
+  | CLe => set_le m1 m2
+  | CDisjoint => forallb (notin m1) m2                (* for value in other: if value in self: return False *)
+  end.
+
 Definition step (st : state) (o : op) : state * result :=
   let t := st_tbl st in
   let getm := fun s => slot_get s (st_pool st) in
@@ -376,6 +459,16 @@ Definition step (st : state) (o : op) : state * result :=
           | Some r => (store st (if inplace then s else d) r, flag_ok inplace)
           end
       end
+  | Sort2 s k1 k2 asc inplace d =>
+      match getm s with
+      | None => (st, RSkip)
+      | Some m =>
+          if negb (valid_slot d) then (st, RSkip) else
+          match sort2_members t k1 k2 asc m with
+          | None => (st, RErr E_ATTR)
+          | Some r => (store st (if inplace then s else d) r, flag_ok inplace)
+          end
+      end
   | Shuffle s outcome inplace d =>
       match getm s with
       | None => (st, RSkip)
@@ -385,7 +478,7 @@ Definition step (st : state) (o : op) : state * result :=
           then (store st (if inplace then s else d) outcome, flag_ok inplace)
           else (st, RIllegal)
       end
-  | GroupBy s k =>
+  | GroupBy s k rt =>
       match getm s with
       | None => (st, RSkip)
       | Some m =>
@@ -393,7 +486,7 @@ Definition step (st : state) (o : op) : state * result :=
           | None => (st, RErr E_ATTR)
           | Some _ =>
               let g := groupby_members (key_or0 t k) m in
-              (st, ROk (zlen g :: flat_map (fun e => fst e :: zlen (snd e) :: snd e) g))
+              (st, ROk (b2z rt :: zlen g :: flat_map (fun e => fst e :: zlen (snd e) :: snd e) g))
           end
       end
   | GroupGet s k kv d =>
@@ -562,6 +655,44 @@ Definition step (st : state) (o : op) : state * result :=
                ROk [1])
           end
       end
+  | GroupMap s k rt gm =>
+      match getm s with
+      | None => (st, RSkip)
+      | Some m =>
+          match all_some (eval_key t k) m with
+          | None => (st, RErr E_ATTR)
+          | Some _ =>
+              match group_map t rt gm (groupby_members (key_or0 t k) m) with
+              | Some r => (st, ROk r)
+              | None => (st, RErr E_ATTR)
+              end
+          end
+      end
+  | GroupDo s k rt by_name n v =>
+      match getm s with
+      | None => (st, RSkip)
+      | Some m =>
+          match all_some (eval_key t k) m with
+          | None => (st, RErr E_ATTR)
+          | Some _ =>
+              let g := groupby_members (key_or0 t k) m in
+              (* getattr(<list>, "set") raises on the first group, before anything is written *)
+              if by_name && negb rt && negb (zlen g =? 0) then (st, RErr E_ATTR)
+              else ({| st_tbl := group_do_set n v g t; st_pool := st_pool st |}, ROk [1])
+          end
+      end
+  | SetOp s1 s2 o inplace d =>
+      match getm s1, getm s2 with
+      | Some m1, Some m2 =>
+          if negb (valid_slot d) then (st, RSkip)
+          else (store st (if inplace then s1 else d) (set_binop o inplace m1 m2), flag_ok inplace)
+      | _, _ => (st, RSkip)
+      end
+  | SetCmp s1 s2 c =>
+      match getm s1, getm s2 with
+      | Some m1, Some m2 => (st, ROk [b2z (set_cmp c m1 m2)])
+      | _, _ => (st, RSkip)
+      end
   end.
 
 (* ---------- observations ---------- *)
@@ -594,8 +725,6 @@ Fixpoint run_ops (st : state) (ops : list op) : list (list Z) :=
 Definition final (st : state) (ops : list op) : state :=
   fold_left (fun s o => fst (step s o)) ops st.
 
-(* AgentSet(agents): {agent: None for agent in agents} de-duplicates, first position kept *)
-Definition new_set (l : list id) : list id := dedup_first Z.eqb l.
 
 Record case := { c_agents : table; c_init : list id; c_ops : list op }.
 Definition init_state (c : case) : state :=
